@@ -189,6 +189,24 @@ def merge(acc, st):
             acc["extra"][k] = v
 
 
+def sample_view(case):
+    """samples in the evidence file: the case itself when small, otherwise its essential parts"""
+    try:
+        txt = json.dumps(case, sort_keys=True)
+    except Exception:
+        return str(case)[:2000]
+    if len(txt) <= 5000:
+        return case
+    sp = case.get("spec") if isinstance(case, dict) else None
+    if isinstance(sp, dict):
+        cs = [c for g in sp.get("groups", []) for c in g.get("cmds", [])]
+        return dict(truncated=True, input=sp.get("input"), qcap=sp.get("qcap"), shared=sp.get("shared"), bufsz=sp.get("bufsz"), ubufsz=sp.get("ubufsz"),
+                    n_commands=len(cs), command_names=[c.get("name") for c in cs[:16]], n_actions=len(sp.get("actions", [])), actions_head=sp.get("actions", [])[:12],
+                    rs=sp.get("rs"), ws=sp.get("ws"), flags=sp.get("flags"), other_keys={k: v for k, v in case.items() if k != "spec"},
+                    first_command=cs[0] if cs else None)
+    return dict(truncated=True, json_prefix=txt[:4000])
+
+
 def write_replay(pid, failure):
     d = os.path.join(VERIF, "replays", pid)
     os.makedirs(d, exist_ok=True)
@@ -367,7 +385,7 @@ def main():
     # 5. evidence
     wall = time.time() - t0
     if not a.no_evidence:
-        samples = [dict(label=k, case=v) for k, v in list(acc["samples"].items())[:8]]
+        samples = [dict(label=k, case=sample_view(v)) for k, v in list(acc["samples"].items())[:8]]
         if not samples:
             samples = [dict(label="none", case=None)]
         cov = dict(evaluations=acc["evaluations"], distinct_nontrivial=nt, rule=P.RULE, samples=samples,
